@@ -3,6 +3,7 @@ the real compiler in worker processes, and return plain data (protocol lines for
 output model bytes, console text, status) to the check script."""
 import os
 import random
+import zlib
 import traceback
 from concurrent.futures import ProcessPoolExecutor
 import multiprocessing
@@ -39,11 +40,32 @@ def sample_config(rng, profile):
     return opts
 
 
+def more_options(rng):
+    """The remaining CLI switches (verbosity, block dependency, iteration limits, debug database, ...)."""
+    opts = []
+    for flag in ["--verbose-config", "--verbose-high-level-command-stream", "--verbose-register-command-stream",
+                 "--show-cpu-operations", "--force-symmetric-int-weights", "--show-subgraph-io-summary", "--enable-debug-db",
+                 "--verbose-graph", "--verbose-quantization", "--verbose-packing", "--verbose-tensor-purpose",
+                 "--verbose-tensor-format", "--verbose-schedule", "--verbose-allocation", "--verbose-operators",
+                 "--verbose-weights", "--verbose-performance", "--verbose-progress", "--timing"]:
+        if rng.random() < 0.12:
+            opts.append(flag)
+    if rng.random() < 0.3:
+        opts += ["--max-block-dependency", str(rng.choice([0, 1, 2, 3]))]
+    if rng.random() < 0.3:
+        opts += ["--hillclimb-max-iterations", str(rng.choice([1, 10, 1000, 99999]))]
+    if rng.random() < 0.1:
+        opts += ["--recursion-limit", str(rng.choice([1000, 2000, 10000]))]
+    return opts
+
+
 def make_net(rng, idx, profile):
     import netgen
 
     if profile == "cascade_chain":
         return netgen.cascade_net(rng, idx)
+    if profile == "weird":
+        return netgen.weird_net(rng, idx)
     if profile == "known_cascade_s3":
         # DESIGN.md section 8 #7: rolling buffer too small for a 3x3 stride-3 SAME consumer, H mod 3 == 1
         return netgen.cascade_net(rng, idx, h=37, w=64, c=32,
@@ -65,23 +87,47 @@ def make_net(rng, idx, profile):
     return netgen.random_net(rng, idx, profile)
 
 
+def exc_site(tb, exc):
+    """<ExceptionType>@<module>.<function> of the innermost frame inside the repository: the stable key
+    under which a known crash is recorded."""
+    if not tb or exc is None:
+        return ""
+    import re
+
+    frames = re.findall(r'File "([^"]+)", line \d+, in (\S+)', tb)
+    inner = [(f, fn) for f, fn in frames if "/ethosu/" in f]
+    if not inner:
+        return type(exc).__name__ + "@?"
+    f, fn = inner[-1]
+    return f"{type(exc).__name__}@{os.path.splitext(os.path.basename(f))[0]}.{fn}"
+
+
+def arch_name(arch):
+    return arch.accelerator_config.value
+
+
 def _worker(job):
     seed, idx, profile, want = job
     import netgen
     import pipeline
 
-    rng = random.Random((seed << 20) ^ (idx * 7919) ^ hash(profile) % 1000003)
+    rng = random.Random((seed << 20) ^ (idx * 7919) ^ zlib.crc32(profile.encode()))
     out = {"idx": idx, "profile": profile, "seed": seed}
     try:
         net = make_net(rng, idx, profile)
         opts = sample_config(rng, profile)
+        if "more_opts" in want:
+            opts += more_options(rng)
         if profile == "known_cascade_s3":
             opts = ["--accelerator-config", "ethos-u55-128", "--optimise", "Size"]
         data = netgen.serialize(net)
         out.update(desc=net.describe(), opts=opts, src_ops=[o.kind for o in net.ops])
         res = pipeline.compile_net(data, opts, name=f"n{idx}")
         out.update(status=res.status, exc=(type(res.exc).__name__ + ": " + str(res.exc))[:300] if res.exc is not None else "",
-                   tb=res.tb[-1500:], ret=res.ret)
+                   tb=res.tb[-1500:], ret=res.ret, exc_site=exc_site(res.tb, res.exc))
+        out["wrote_output"] = res.out_model is not None
+        out["printed_error"] = any(l.startswith("Error:") or l.startswith("'Error:") for l in res.stdout.split("\n"))
+        out["stdout_tail"] = res.stdout[-400:]
         out["stdout"] = res.stdout if "stdout" in want else ""
         out["csv"] = res.csv
         out["src_model"] = data if "models" in want else None
@@ -96,6 +142,9 @@ def _worker(job):
                     except Exception:
                         out.setdefault("harness_errors", []).append(traceback.format_exc()[-800:])
                 nops.append(len(art.npu_ops))
+                if "words" in want:
+                    out.setdefault("cmd_words", []).append(list(art.words))
+                    out.setdefault("acc", arch_name(art.arch))
                 out.setdefault("op_meta", []).append(pipeline.op_meta(art))
                 feats |= pipeline.stream_features(art)
             out["extents"] = ext
@@ -110,11 +159,27 @@ def _worker(job):
     return out
 
 
+def replay_jobs(ck, want):
+    """If the check was started with --replay <file>, the single job recorded in that file."""
+    import json
+
+    if not ck.replay_arg:
+        return None
+    r = json.load(open(ck.replay_arg))
+    rp = r.get("replay", r)
+    if not all(k in rp for k in ("seed", "index", "profile")):
+        raise common.InfraError("replay file does not name (seed, index, profile)")
+    return [(rp["seed"], rp["index"], rp["profile"], want)]
+
+
 def run_corpus(ck, n, profiles=None, want=("stream",), jobs=None, corpus_first=True):
     """Compile `n` generated networks (plus the corpus) and return the list of worker outputs."""
     import pipeline
 
     pipeline.load_vela()       # build the C extension once, before forking
+    rj = replay_jobs(ck, {k: True for k in want} if not isinstance(want, dict) else want)
+    if rj is not None:
+        return [_worker(rj[0])]
     profiles = profiles or PROFILES
     want = {k: True for k in want} if not isinstance(want, dict) else want
     jobs_list = []
